@@ -206,6 +206,13 @@ func AddCounts(dst, src map[string]int) map[string]int {
 		dst = map[string]int{}
 	}
 	for k, v := range src {
+		if len(k) > 4 && k[:4] == "max_" {
+			// a gauge, not a counter
+			if v > dst[k] {
+				dst[k] = v
+			}
+			continue
+		}
 		dst[k] += v
 	}
 	return dst
